@@ -38,7 +38,12 @@ SPEC = dict(
           "production B=4096 with boundaries 4096, 8192, 16384 (thorough: also 32768) under the production limits, signature separator "
           "via B*2^j = siglen-3..siglen+2 with and without body, body end at boundary-2..+2; half of them followed by a second assertion, "
           "one third with the boundary assertion last; plus random valid streams through chopped readers. Monitor: every original comes "
-          "back identical, in order, then EOF. Fixed body-length streams (negative, signed, zero-padded, overflowing, above the maximum: regression cases of the repaired panic). Every call runs under panic recovery and a 20 s time bound. Non-trivial = accepted "
+          "back identical, in order, then EOF; bodies of 0, 1, 3600..4200 (step 100), 4096, 5000, 9000, 70000 bytes (thorough: up to 1 MB) and bodies "
+          "ending at the 4096-byte read window -2..+2, alone and as 2nd/3rd assertion of a stream, through the production decoder setup. "
+          "For EVERY accepted assertion in every entry (Decode, NewDecoder, stressed and chunked stream decoders) the driver records "
+          "asserts.Encode of the returned assertion (checked to be Signature() content + blank line + signature) and whether "
+          "asserts.SignatureCheck against the signing key succeeds; the monitor requires the re-encoding to equal the original encoding "
+          "(one-shot Decode: the input bytes) and the signature to verify. Fixed body-length streams (negative, signed, zero-padded, overflowing, above the maximum: regression cases of the repaired panic). Every call runs under panic recovery and a 20 s time bound. Non-trivial = accepted "
           "parse / successful round trip / at least one assertion decoded from a stream."),
     exhaustive=dict(quick=True, thorough=True),
     trusted_base=[
@@ -48,7 +53,7 @@ SPEC = dict(
         "assemble's per-type checks, signing and RSA are not modelled: the model stops where Decode calls assemble; an accepted assertion must carry the model's headers/body/signature, a rejection by assemble is allowed",
     ],
     assumptions=[
-        "PARTIAL: proved for all inputs on the model: header text round trip for every normalised tree of any depth (C20_roundtrip, C20_roundtrip_bytes), line split/join inverses, totality of parseHeaders (no out-of-range index, termination within 2*lines+1 steps: C20_no_panic), readUntil/Decode size bounds (C20_read_until_bound, C20_limits), that the overlap kept between two rounds of readUntil loses no delimiter (C20_read_until_overlap: the Go loop = whole-buffer search for every input), and that Decoder.Decode never panics on any stream (C20_stream_never_panics, C20_stream_loop_never_panics; the negative body-length panic this check found is repaired in /repo commit 94ffaa1). the byte-level round trip of a whole serialized assertion decode_parts (encode_assertion h body sig) = Ok (h, body, sig) for every normalised h, arbitrary body and any signature text without blank line / leading newline (C20_assertion_roundtrip), and that a bufio-style Peek returns the same bytes for every chunking of the reader (C20_peek_chunking_independent, C20_peek_is_flat_peek). NOT proved, only monitored on the implementation: the stream version of the round trip (Decoder.Decode over the concatenation of k encodings returns exactly those k assertions then EOF; exercised by the chunk cases with delimiters on every read boundary), identical revision/format (derived from headers by assemble), absence of hangs of the real decoder (20 s bound per call), independence of the stream decoder's result from the reader's chunking (monitored with chopped readers).",
+        "PARTIAL: proved for all inputs on the model: header text round trip for every normalised tree of any depth (C20_roundtrip, C20_roundtrip_bytes), line split/join inverses, totality of parseHeaders (no out-of-range index, termination within 2*lines+1 steps: C20_no_panic), readUntil/Decode size bounds (C20_read_until_bound, C20_limits), that the overlap kept between two rounds of readUntil loses no delimiter (C20_read_until_overlap: the Go loop = whole-buffer search for every input), and that Decoder.Decode never panics on any stream (C20_stream_never_panics, C20_stream_loop_never_panics; the negative body-length panic this check found is repaired in /repo commit 94ffaa1). the byte-level round trip of a whole serialized assertion decode_parts (encode_assertion h body sig) = Ok (h, body, sig) for every normalised h, arbitrary body and any signature text without blank line / leading newline (C20_assertion_roundtrip), and that a bufio-style Peek returns the same bytes for every chunking of the reader (C20_peek_chunking_independent, C20_peek_is_flat_peek). The model carries the signed content of each decoded assertion (p_content); C20_reencode_identity: Encode of the one-shot decoded assertion is the original byte string. NOT proved, only monitored on the implementation: the stream version of the round trip (Decoder.Decode over the concatenation of k encodings returns exactly those k assertions then EOF; exercised by the chunk cases with delimiters on every read boundary), identical revision/format (derived from headers by assemble), absence of hangs of the real decoder (20 s bound per call), independence of the stream decoder's result from the reader's chunking (monitored with chopped readers).",
         "normalised header tree = strings, non-empty lists, non-empty maps with valid distinct keys (what parseHeaders can produce); assembleAndSign also accepts trees outside this form, whose text form drops empty lists/maps or cannot be parsed (C20_roundtrip_any_tree_refuted) - treated as outside the property's `valid assertion`",
         "Go maps are represented by their key-sorted entry list",
         "the C20_limits bound for the header text is the readUntil bound max(initial buffer, limit); with the production constants (4096, 128 KiB, 2 MiB, 128 KiB) that is the limit itself",
